@@ -36,7 +36,7 @@ from __future__ import annotations
 
 import ast
 
-from ..astutil import callee_name, handler_types, is_name, text
+from ..astutil import call_recv, callee_name, handler_types, is_name, text
 from ..core import Result
 from ..model import AnchorMissing, Repo, body_without_docstring, walk_no_nested
 from ..registry import Registry
@@ -103,7 +103,7 @@ def run(repo: Repo) -> Result:
             and isinstance(body[0].value.func, ast.Attribute)
             and body[0].value.func.attr == meth
             and params
-            and is_name(body[0].value.func.value, params[0])
+            and is_name(call_recv(body[0].value), params[0])
             and not body[0].value.args
             and not body[0].value.keywords
         )
@@ -138,9 +138,12 @@ def run(repo: Repo) -> Result:
             for st in walk_no_nested(f.node)
         )
 
+    from ..normalize import desugar_operator_calls, nfunc
+
     for name in list(BINOPS) + ["divided_by"] + list(UNARY) + list(EXTREMA):
         fi = impl(name)
-        f = fi.func
+        f = nfunc(repo, fi.func, aliases=False)  # private helpers inlined ...
+        desugar_operator_calls(f.node)  # ... and operator.add(a, b) read as a + b
         res.ob(f"arith:{name}", 3)
         if "math_filter" not in fi.decorators:
             res.add("C25-ARITH", f.qual, "not-math-filter", f"filter `{name}` is not behind @math_filter (left value not converted to a number)", f.file, f.line)
